@@ -16,6 +16,7 @@
 import ast
 
 from rsx.access import access
+from rsx.flow import holds
 from .common import (AnalysisError, Finding, RuleResult, MustFlow, ntext, walk_no_nested,
                      body_stmts, is_self_attr, call_name, expand_locals)
 
@@ -56,6 +57,22 @@ class _Capture(MustFlow):
         return state
 
     def _guarded(self, item, state):
+        from rsx.flow import clauses_of
+        for c in clauses_of(state):
+            if len(c) != 1:
+                continue
+            a, pol = next(iter(c))
+            if not pol:
+                continue
+            try:
+                t = ast.parse(a, mode='eval').body
+            except SyntaxError:
+                continue
+            if isinstance(t, ast.Compare) and len(t.ops) == 1 and isinstance(t.ops[0], (ast.Is, ast.Eq)):
+                sides = [t.left, t.comparators[0]]
+                txt = [ntext(x) for x in sides]
+                if item + '.model' in txt and any(self._is_recv(x) for x in sides):
+                    return True
         for f in state:
             if f[0] == 'cond' and f[1] is False:
                 try:
@@ -192,8 +209,12 @@ def run(repo):
         def __init__(self):
             super().__init__()
             self.bad = []
+            self.defs = {}
 
         def visit(self, node, state):
+            # remember where a local that may later be passed as the set is assigned, and what is known there
+            if isinstance(node, ast.Assign) and len(node.targets) == 1 and isinstance(node.targets[0], ast.Name):
+                self.defs.setdefault(node.targets[0].id, []).append((node.value, state))
             for n in ast.walk(node):
                 if isinstance(n, ast.Call) and isinstance(n.func, ast.Attribute) and n.func.attr == 'le_to_rc':
                     recv = ntext(n.func.value)
@@ -211,12 +232,17 @@ def run(repo):
                             # le_to_rc(None if constr.support else self.obj_support): one case per arm
                             cases = [(a.body, frozenset({('cond', True, ntext(a.test))})),
                                      (a.orelse, frozenset({('cond', False, ntext(a.test))}))]
+                        elif isinstance(a, ast.Name) and len(self.defs.get(a.id, [])) > 1:
+                            # a local assigned per case (support = None / support = self.obj_support):
+                            # one case per definition, with what was known where it was made
+                            cases = [(v, frozenset(f for f in stt if isinstance(f, tuple) and f and f[0] in ('cond', 'cl')))
+                                     for v, stt in self.defs[a.id]]
                         else:
                             cases = [(a, frozenset())]
                     for val, extra in cases:
                         st = state | extra
                         if val is None or (isinstance(val, ast.Constant) and val.value is None):
-                            if not (own & st):
+                            if not (own & st or holds(st, recv + '.support') or holds(st, recv + '.support is not None')):
                                 self.bad.append((n, 'le_to_rc() is called without a set on a path that '
                                                     'has not established %s.support' % recv))
                             continue
@@ -225,7 +251,7 @@ def run(repo):
                                              % ntext(val)))
                         # le_to_rc prefers the set it is given over the constraint's own one, so the
                         # default set may only be passed once the constraint is known to have none
-                        if not (none & st):
+                        if not (none & st or holds(st, recv + '.support', False) or holds(st, recv + '.support is None')):
                             self.bad.append((n, 'le_to_rc(self.obj_support) is reachable for a constraint '
                                                 'that has its own set (%s.support): the objective\'s default '
                                                 'set would override the set given to forall()' % recv))
@@ -248,8 +274,7 @@ def run(repo):
             for n in ast.walk(node):
                 if isinstance(n, ast.Attribute) and isinstance(n.value, ast.Name) and n.value.id == 'support' \
                         and isinstance(n.ctx, ast.Load):
-                    if ('cond', False, 'support is None') not in state and \
-                            ('cond', True, 'support is not None') not in state:
+                    if not holds(state, 'support is None', False):
                         self.bad.append(n)
     ng = _NoneGuard()
     ng.run(body_stmts(lr))
@@ -311,10 +336,17 @@ def run(repo):
         txt = ' '.join(ntext(r) for r in raises).lower()
         has = 'undefined' in txt
         guard_ok = False
+        from rsx.flow import literal
         for n in walk_no_nested(fi.node):
-            if isinstance(n, ast.If) and any(isinstance(x, ast.Raise) for x in n.body):
-                t = ntext(n.test)
-                if t in ('not ambset', 'ambset is None', 'self.obj_ambiguity is None'):
+            if not isinstance(n, ast.If):
+                continue
+            a, pol = literal(n.test)
+            raising = any(isinstance(x, ast.Raise) for x in n.body)
+            raising_else = any(isinstance(x, ast.Raise) for x in n.orelse)
+            # the raising side is the one where the set is missing
+            for atom, missing_when in (('ambset', False), ('ambset is None', True), ('self.obj_ambiguity is None', True),
+                                       ('self.obj_ambiguity', False)):
+                if a == atom and ((raising and pol == missing_when) or (raising_else and pol != missing_when)):
                     guard_ok = True
         res.inst({'selection': fq, 'raises_when_undefined': guard_ok}, guard_ok)
         if not guard_ok:
